@@ -143,3 +143,14 @@ Qed.
 Example dtype_preserved_example :
   dtype_preserved Fhalf (PNode [PLeaf DF64 [1; 3]; PNode [PLeaf DF64 [5 : Q]]]).
 Proof. cbn. repeat split. Qed.
+
+(* non-vacuity of the binary legacy theorems: X in (rn(2)**2)**2, x2 in the inner space rn(2)**2 *)
+Definition tX : @ptree Q :=
+  PNode [PNode [PLeaf DF64 [0; 1]; PLeaf DF64 [2; 3]]; PNode [PLeaf DF64 [4; 5]; PLeaf DF64 [6; 7]]].
+Definition tU : @ptree Q := PNode [PLeaf DF64 [10; 20]; PLeaf DF64 [30; 40]].
+Example inner_example : inner tX tU /\ all_dtype DF64 tX /\ copies tX tU = 2%nat.
+Proof. cbn. repeat split. Qed.
+Example legacy2_example :
+  legacy2 castQ false (fun d => d) (fun _ => bop_ev BAdd) false tX (A2Tree tU)
+  = Ok (PNode [PNode [PLeaf DF64 [10; 21]; PLeaf DF64 [32; 43]]; PNode [PLeaf DF64 [14; 25]; PLeaf DF64 [36; 47]]]).
+Proof. vm_compute. reflexivity. Qed.
